@@ -3,5 +3,5 @@
 P=$1; [ -f "$P" ] || P=/verif/seeded/$1/patch.diff
 cd /repo && git diff --quiet || { echo "/repo has local changes"; exit 2; }
 git apply "$P" || { echo "patch does not apply"; exit 2; }
-cd /verif && ./check $2 --tier ${3:-quick} | grep -E "VIOLATION|ANALYSIS-BROKEN|^  C|^C[0-9]+:" | head -${LINES_MAX:-12}
+cd /verif && NSTD_EVIDENCE_DIR=/var/tmp/nstd-verif-scratch-evidence ./check $2 --tier ${3:-quick} | grep -E "VIOLATION|ANALYSIS-BROKEN|^  C|^C[0-9]+:" | head -${LINES_MAX:-12}
 git -C /repo checkout -- . 
